@@ -146,9 +146,6 @@ def install() -> None:
     if os.walk is not _walk:
         os.walk = _walk
         pathlib.Path.iterdir = _iterdir
-        # os.walk / Path.iterdir captured the real scandir/listdir lookups at call time through the os module:
-        # they are wrapped at their own level above, and left alone below the wrappers (the real functions are
-        # called through the saved references), so an entry list is never permuted inconsistently.
 
 
 def install_low_level() -> None:
